@@ -129,6 +129,10 @@ func addScrubFieldsToSelectionSet(ctx *PlanningContext, selectionSet ast.Selecti
 			selectionSet = addTypenameFieldToSelectionSet(selectionSet)
 			addedFields = append(addedFields, common.TypenameFieldName)
 		}
+		// an abstract type nobody implements has no stitchable children
+		if len(pt) == 0 {
+			return selectionSet, addedFields
+		}
 		// check that union or interface definition
 		// contains ID field AND it's children implements node
 		fd := t.Fields.ForName(common.IDFieldName)
